@@ -529,10 +529,14 @@ pub fn fuzz_one(name: &'static str, data: &[u8]) {
 // ---------------------------------------------------------------------------------------------
 // orchestration from vcheck
 
-pub const FUZZ_ROOT: &str = "/verif/fuzz";
+/// Where the fuzz crate lives (`VERIF_FUZZ_ROOT` overrides it for scratch copies used in
+/// sensitivity experiments).
+pub fn fuzz_root() -> String {
+    std::env::var("VERIF_FUZZ_ROOT").unwrap_or_else(|_| "/verif/fuzz".to_string())
+}
 
 fn corpus_files(name: &str) -> Vec<std::path::PathBuf> {
-    let mut v: Vec<_> = std::fs::read_dir(format!("{FUZZ_ROOT}/corpus/{name}"))
+    let mut v: Vec<_> = std::fs::read_dir(format!("{}/corpus/{name}", fuzz_root()))
         .map(|rd| rd.filter_map(|e| e.ok()).map(|e| e.path()).filter(|p| p.is_file()).collect())
         .unwrap_or_default();
     v.sort();
@@ -557,7 +561,7 @@ pub fn replay_corpus(st: &mut Stats, name: &str) {
 /// under `extra` and make the stage inconclusive (returned flag), never a violation.
 pub fn run_stage(ctx: &Ctx, st: &mut Stats, name: &str, runs: u64) -> bool {
     let Some(t) = target(name) else { return false };
-    let bin = format!("{FUZZ_ROOT}/target/x86_64-unknown-linux-gnu/release/{name}");
+    let bin = format!("{}/target/x86_64-unknown-linux-gnu/release/{name}", fuzz_root());
     if !std::path::Path::new(&bin).exists() {
         st.extra.insert(format!("fuzz:{name}"), json!({"skipped": "fuzz binary not built"}));
         eprintln!("[fuzz] {bin} missing: stage skipped (inconclusive)");
@@ -572,7 +576,7 @@ pub fn run_stage(ctx: &Ctx, st: &mut Stats, name: &str, runs: u64) -> bool {
         std::fs::create_dir_all(format!("{dir}/corpus")).ok();
         let mut cmd = std::process::Command::new(&bin);
         cmd.arg(format!("{dir}/corpus"));
-        let seed_corpus = format!("{FUZZ_ROOT}/corpus/{name}");
+        let seed_corpus = format!("{}/corpus/{name}", fuzz_root());
         if std::path::Path::new(&seed_corpus).is_dir() {
             cmd.arg(seed_corpus);
         }
